@@ -466,6 +466,11 @@ func (fc *FnCtx) instr(b *ssa.BasicBlock, idx int, in ssa.Instruction) {
 	case *ssa.MakeChan:
 		ref := fc.allocRef()
 		fc.setVal(x, Val{T: x.Type(), L: []string{ref}})
+		// the capacity is a fixed attribute of the channel
+		fc.declareFunOnce("chancap", "((_ BitVec 64)) (_ BitVec 64)")
+		if sz := fc.operand(x.Size); len(sz.L) == 1 {
+			fc.cur.assume(eq(app("chancap", ref), fc.convInt(sz.L[0], 64, true, 64)))
+		}
 		name := fc.chanClass(x)
 		fc.anchorArgs = nil
 		fc.anchorBefore("make "+name, x.Pos())
